@@ -114,3 +114,40 @@ hx_fpack_roundtrip(int32 vs, const char *fields, uint8 *packed, int32 bufsz, int
         free(ptrs[i]);
     return ret;
 }
+
+/* iterate Vgetid / VSgetid over the whole file */
+int32
+hx_vgetid_all(int32 f, int32 *o, int32 max)
+{
+    int32 id = -1, n = 0;
+    while ((id = Vgetid(f, id)) != FAIL) {
+        if (n < max)
+            o[n] = id;
+        if (++n > 100000)
+            return -2;
+    }
+    return n;
+}
+
+int32
+hx_vsgetid_all(int32 f, int32 *o, int32 max)
+{
+    int32 id = -1, n = 0;
+    while ((id = VSgetid(f, id)) != FAIL) {
+        if (n < max)
+            o[n] = id;
+        if (++n > 100000)
+            return -2;
+    }
+    return n;
+}
+
+/* delete the member at position `pos` of a vgroup (looked up with Vgettagref); -5 when there is none */
+int32
+hx_vdelete_at(int32 vkey, int32 pos)
+{
+    int32 tag, ref;
+    if (pos >= Vntagrefs(vkey) || Vgettagref(vkey, pos, &tag, &ref) == FAIL)
+        return -5;
+    return Vdeletetagref(vkey, tag, ref);
+}
